@@ -132,6 +132,12 @@ def cases(tier, seed):
         if sc_ is not None:
             b_['sym_cores'] = sc_
         cs.append({'scen': 'tt_round', 's': b_})
+    # eps = 0 / default with per-bond caps whose binding entry is not the largest one
+    for N, R, rm in [([2, 2, 2], [1, 2, 2, 1], [1, 1, 2, 1]), ([2, 2, 2], [1, 2, 2, 1], [1, 2, 1, 1]), ([2, 2, 2, 2], [1, 2, 2, 2, 1], [1, 1, 3, 2, 1])]:
+        pats = gen_tt_pattern(N, R, rng, dense_slices=True, skip=0)
+        base = {'N': N, 'R': R, 'patterns': [[list(p) for p in pk] for pk in pats], 'rmax': rm}
+        cs.append({'scen': 'tt_round', 's': dict(base, eps='zero')})
+        cs.append({'scen': 'tt_round', 's': dict(base, eps='default')})
     # histories on one object: round, (replace a core,) round again
     for N, R, k in [([2, 2], [1, 2, 1], 0), ([2, 2], [1, 2, 1], 1), ([2, 2, 2], [1, 2, 2, 1], 1), ([2, 3], [1, 2, 1], 1)]:
         pats = gen_tt_pattern(N, R, rng, dense_slices=True, skip=0)
